@@ -21,3 +21,108 @@ func H_C20_lev(v *V) {
 func init() {
 	vHarnesses["H_C20_lev"] = H_C20_lev
 }
+
+type c20Cmd struct{}
+
+// c20Sets: command-name sets (visible names, then one hidden name); several
+// names at equal distance from likely inputs, a multi-byte name, a prefix pair.
+var c20Sets = [][]string{
+	{"add", "rm", "hide"},
+	{"commit", "clone", "config", "hide"},
+	{"ab", "ba", "bb", "zz"},
+	{"é", "ee", "été", "zz"},
+	{"list", "lists", "zz"},
+}
+
+// H_C20_suggest: the diagnostic for an unrecognised or missing command.
+func H_C20_suggest(v *V) {
+	set := c20Sets[v.Shape("set")]
+	names := set[:len(set)-1]
+	hidden := set[len(set)-1]
+	p := NewNamedParser("prog", None)
+	for _, n := range set {
+		c, err := p.AddCommand(n, "", "", &c20Cmd{})
+		if err != nil {
+			v.Assume(false)
+		}
+		if n == hidden {
+			c.Hidden = true
+		}
+	}
+	// sorted visible names
+	sorted := append([]string{}, names...)
+	for i := 1; i < len(sorted); i++ {
+		for j := i; j > 0 && sorted[j] < sorted[j-1]; j-- {
+			sorted[j], sorted[j-1] = sorted[j-1], sorted[j]
+		}
+	}
+	if v.Shape("lw") < 0 {
+		_, err := p.ParseArgs(nil)
+		t, typed := vErrType(err)
+		v.Reach("missing")
+		v.Assert(err != nil && typed && t == ErrCommandRequired, "a missing required command fails with ErrCommandRequired")
+		if err != nil {
+			c20Enumerates(v, err.Error(), sorted, hidden)
+		}
+		return
+	}
+	W := v.String(v.Shape("lw"))
+	v.Assume(!refOptionSyntax(W) && !refIn(set, W))
+	for i := 0; i < len(W); i++ {
+		v.Assume(W[i] != '`' && W[i] != '\'')
+	}
+	// the hidden name must not occur in the given word (the word is echoed)
+	v.Assume(!v.Contains(W, hidden))
+	_, err := p.ParseArgs([]string{W})
+	t, typed := vErrType(err)
+	v.Assert(err != nil && typed && t == ErrUnknownCommand, "an unrecognised command fails with ErrUnknownCommand")
+	if err == nil {
+		return
+	}
+	msg := err.Error()
+	// reference: first minimum of the true distance over the sorted visible names
+	best, bestD := 0, refLev(W, sorted[0])
+	for i := 1; i < len(sorted); i++ {
+		if d := refLev(W, sorted[i]); d < bestD {
+			best, bestD = i, d
+		}
+	}
+	cand := sorted[best]
+	nChars := len([]rune(cand))
+	suggestChars := 2*bestD < nChars
+	suggestBytes := 2*bestD < len(cand)
+	v.ObserveStr("msg", msg)
+	v.Assert(!v.Contains(msg, hidden), "hidden commands are never suggested or enumerated")
+	if suggestChars && suggestBytes {
+		v.Reach("suggest")
+		v.Assert(v.Contains(msg, "did you mean `"+cand+"'"), "the nearest visible command (first minimum of the true edit distance) is suggested")
+	} else if !suggestChars && !suggestBytes {
+		v.Reach("enumerate")
+		v.Assert(!v.Contains(msg, "did you mean"), "no suggestion unless the distance is less than half the name's length")
+		c20Enumerates(v, msg, sorted, hidden)
+	}
+}
+
+// c20Enumerates: every visible name occurs, in sorted order.
+func c20Enumerates(v *V, msg string, sorted []string, hidden string) {
+	v.Assert(!v.Contains(msg, hidden), "hidden commands are not enumerated")
+	pos := -1
+	tail := msg
+	if i := refIndexStr(msg, "command"); i >= 0 {
+		tail = msg[i:]
+	}
+	_ = pos
+	off := 0
+	for _, n := range sorted {
+		i := refIndexStr(tail[off:], n)
+		v.Assert(i >= 0, "all visible commands are enumerated in sorted order")
+		if i < 0 {
+			return
+		}
+		off += i + len(n)
+	}
+}
+
+func init() {
+	vHarnesses["H_C20_suggest"] = H_C20_suggest
+}
